@@ -230,6 +230,13 @@ def structured_case(draw):
     fields = draw(st.lists(field(), min_size=1, max_size=8))
     if draw(st.booleans()) and len(fields) < 8:
         fields.append(fields[draw(st.integers(0, len(fields) - 1))])
+    if draw(st.integers(0, 5)) == 0:
+        # a content type whose body the MIME parser would want to look into (the envelope only ever parses the header block)
+        ct = draw(st.sampled_from([b'message/rfc822', b'message/global', b'message/partial; id="a@b"; number=1; total=2',
+                                   b'message/delivery-status', b'message/external-body; access-type=local-file',
+                                   b'multipart/mixed; boundary="x"', b'multipart/alternative; boundary=x', b'multipart/digest',
+                                   b'text/plain; charset=utf-8', b'application/octet-stream']))
+        fields.insert(draw(st.integers(0, len(fields))), (draw(st.sampled_from([b'Content-Type', b'content-type'])), b' ', [ct]))
     eol = draw(st.sampled_from([b'\r\n', b'\r\n', b'\n']))
     body = draw(_body)
     block = build(fields, eol, b'')[:-len(eol)]
@@ -292,7 +299,8 @@ def sevenbit_case(draw):
     enc = draw(st.sampled_from(['base64', 'qp', 'none']))
     # the transfer-encoding label may come from the sender and need not be truthful for a raw 8-bit body
     extra = draw(st.sampled_from([b'', b'Subject: x\r\n', b'Content-Transfer-Encoding: 8bit\r\n', b'Content-Transfer-Encoding: 7bit\r\n',
-                                  b'content-transfer-encoding: 7BIT\r\n', b'Content-Transfer-Encoding: binary\r\n']))
+                                  b'content-transfer-encoding: 7BIT\r\n', b'Content-Transfer-Encoding: binary\r\n',
+                                  b'Content-Transfer-Encoding: base64\r\n', b'Content-Transfer-Encoding: quoted-printable\r\n']))
     return text, enc, extra
 
 
